@@ -6,7 +6,7 @@ Extraction Language OCaml.
 Extraction "model.ml"
   bytes_eqb
   Props.accepts Props.notifier_step Props.seqno_step Props.cancel_step Props.order_step Props.c13_pred
-  Tags.tstep Tags.th0 Tags.tags_of Tags.traveling_tags Instrument.irun Instrument.istep Instrument.inst0 Events.fkind_eqb Props.c01_no_crosstalk Props.c01_invoked_once Props.c01_never_twice Props.count_ev Props.replied_to Props.c12_pred Props.c08_pred Props.c08_reaches_handler Props.c20_one Props.records_of Props.c07_lifecycle Props.c09_only_own Props.c09_close_cancels_all Props.c11_pred Props.frames_whole Props.refused_write_nothing Props.c03_pred
+  Tags.tstep Tags.th0 Tags.tags_of Tags.tm_merge Tags.tm_norm Tags.traveling_tags Instrument.irun Instrument.istep Instrument.inst0 Events.fkind_eqb Props.c01_no_crosstalk Props.c01_invoked_once Props.c01_never_twice Props.count_ev Props.replied_to Props.c12_pred Props.c08_pred Props.c08_reaches_handler Props.c20_one Props.records_of Props.c07_lifecycle Props.c09_only_own Props.c09_close_cancels_all Props.c11_pred Props.frames_whole Props.refused_write_nothing Props.c03_pred
   Msgpack.enc Msgpack.enc_alt Msgpack.decode Msgpack.wf_val Msgpack.dec_int32 Msgpack.dec_int64
   Frame.frame_val Frame.spec_bytes Frame.encode_value Frame.encode_frame Frame.next_frame Frame.run_frames
   Frame.continues Frame.outcome_of_msg Frame.split_method Frame.has_compressor
